@@ -7,7 +7,7 @@ R3  For statements generated from Stark.tla (all assertion kinds incl. sequences
     interpolation, periodic columns composed with x^(n/cycle), transition divisor, per-assertion vanishing polynomials,
     canonical coefficient order) at three out-of-domain points per statement and compares with the prover's columns."""
 import json, os, re, time
-import vlib, starkgen, c01
+import vlib, starkgen, c01, vmodel
 from vlib import log
 
 PID = "C17"
@@ -19,6 +19,7 @@ def run(tier, seed):
     wd = vlib.workdir(PID)
     exe = vlib.build_harness("dbg")
     r, stmts = c01.gen(6 if tier == "quick" else 7, 1 if tier == "quick" else 2)
+    stmts0 = list(stmts)
     if not r.ok:
         v.violation("model/" + str(r.violation), "Stark.tla: %s" % r.violation, {"tlc": r.out[-2000:]})
     # the toy field has two-adicity 13 and no cubic extension issues; base-field composition only
@@ -127,6 +128,13 @@ def run(tier, seed):
         v.violation("comp/definition/%s%s" % ("periodic" if sh.get("periodic") else "plain", "/extension" if "xtrace" in tp else ""),
                     "the prover's composition polynomial differs from its definition at an out-of-domain point (%sn=%s width=%s degrees=%s periodic cycles=%s exemptions=%s assertions=%s)" % (
                         "extension field, " if "xtrace" in tp else "", sh.get("n"), sh.get("width"), sh.get("degs"), sh.get("periodic"), sh.get("exempt"), [a["kind"] for a in sh.get("asserts", [])]), sc)
+    # the verifier's side of the same expression: Trace_Verifier.tla evaluates the constraints on the out-of-domain frame of real
+    # proofs (challenges as the verifier drew them) and compares with the H(z) reduced from the columns the prover sent
+    vm = vmodel.run(tier, seed, stmts0, wd)
+    vmodel.judge(v, vm, ("ood", "coefficients"), PID)
+    states += vm["states"]
+    trans += vm["transitions"]
+    accepted += vm["accepted"]
     log("[trace] %d statements (x3 points) over the base field, %d (x2 points) over the quadratic / cubic extension, %d/%d shards accepted" % (
         len(scs), len(xsel), accepted, len(jobs) + len(xjobs)))
     rc = v.finish()
@@ -136,10 +144,12 @@ def run(tier, seed):
         "rule": "statements of Gen_Stark.tla with width <= 9 and n <= 128, plus variants with all five assertion templates (sequences of n/4 and n/2 values) and a second "
                 "periodic column; three random out-of-domain points each",
         "exhaustive": False, "shards_accepted": accepted, "extension_field_statements": len(xsel),
+        "verifier_model_proofs": len(vm["lines"]), "verifier_model_stages": vmodel._hist(vm["lines"]),
         "known_finding_occurrences": v.n_known, "new_violations": v.n_new,
     }, time.time() - t0, violations=v.n_new,
         assumptions=["composition over ToyField and its quadratic / cubic extensions (generic code); extension fields for statements of at most 16 steps",
-                     "the verifier's evaluation of the same expression is bound to the prover's by the out-of-domain consistency check exercised in C01/C02"])
+                     "the verifier's evaluation of the same expression: Trace_Verifier.tla recomputes the constraints on the out-of-domain frame of real proofs "
+                     "over the harness field (base field, Blake3) with the challenges the verifier drew"])
     return rc
 
 
